@@ -81,6 +81,11 @@ def impl_case(case):
                 problem.sequence = problem.sequence_before
         except (dc.NoSolutionError, ValueError):
             pass
+        except Exception:  # noqa
+            # a solver step may raise after a manual assignment that left the mutation space (e.g.
+            # KeyError in all_variants): outside C17's claim, which is about the reports - they are
+            # still checked on the state the step left behind
+            pass
         snaps.append((op, snapshot(problem)))
     return dict(snaps=snaps)
 
